@@ -199,6 +199,29 @@ def worker(job):
                 st.violate("nonzero-exit-without-error", None, detail, rp)
             if shape.startswith("files0") and n_empty > 0 and not err.strip():
                 st.violate("empty-name-not-diagnosed", None, detail, rp)
+            if n_missing and ok and shape in ("operands", "files0-file") and rng.random() < 0.6:
+                # the same run with -quit after the action: the walk stops at the first entry reported - and a starting point that
+                # could not be examined BEFORE that still shows in the exit status (later ones are never looked at)
+                first = next((j for j, seg in enumerate(per) if seg), None)
+                if first is not None:
+                    args2 = args + ["-quit"]
+                    rc2, out2, err2, to2 = common.run_cmd(args2, cwd=cwd, env=env, timeout=60, input=stdin)
+                    got2 = [x.decode("utf-8", "surrogateescape") for x in out2.split(b"\0")[:-1]]
+                    missing_before = [r_ for r_ in roots_eff[:first] if r_ == "" or not os.path.lexists(os.path.join(cwd, r_))]
+                    st.inc("evaluations")
+                    st.inc("runs_with_quit_after_the_first_reported_entry")
+                    problems = []
+                    if len(got2) != 1 or got2[0] not in per[first] or (sorted_ and got2[0] != per[first][0]):
+                        problems.append("reported %r, expected exactly one entry of starting point #%d (%r)" % (got2[:3], first, per[first][:1]))
+                    if missing_before:
+                        st.inc("runs_with_quit_after_an_unusable_starting_point")
+                        if rc2 == 0 or not err2.strip():
+                            problems.append("exit status %r, stderr %r although %r could not be examined before -quit fired" % (rc2, err2[-120:], missing_before[:2]))
+                    elif rc2 != 0:
+                        problems.append("exit status %r, stderr %r: nothing failed before -quit fired" % (rc2, err2[-120:]))
+                    if problems:
+                        st.violate("missing-root-exit-0" if missing_before and rc2 == 0 else "wrong-output", None,
+                                   dict(detail, args=[a.replace(sb, "ABS") for a in args2[1:]], problems=problems, exit=rc2), dict(rp, args=args2))
             if shape == "equiv" and ok:
                 # the same names as operands must give byte-identical output and the same exit status
                 rc2, out2, err2, to2 = common.run_cmd([common.FIND] + lead + roots_eff + tail, cwd=cwd, env=env, timeout=60)
